@@ -47,6 +47,11 @@ def run(ctx) -> None:
     ctx.guard("C11.lvh-note", none_concat_rule, "C11.lvh-note", ("EvoWorklist.transfer", "FluentWorklist.transfer", "Labware.condense_log", "Labware.log", "Labware.add", "Labware.remove"),
               "recording the operation (an unlabelled operation is valid)")
     ctx.reuse("C11.snapshot", c02.ctor)
+    # the LVH note counts len(steps) - 1 per well: it is the number of extra pairs only if every step of every well is pipetted
+    from . import c06 as _c06
+
+    for dev in concrete_devices(ctx):
+        ctx.reuse("C11.lvh-count", _c06.iteration_space, dev)
     ctx.reuse("C11.snapshot", c02.alias)
 
 
